@@ -105,6 +105,7 @@ bool arena_free(void* p) {
     snprintf(msg, sizeof msg, "double free of arena block #%llu (%u bytes)", (unsigned long long)b->id, b->size);
     end_run_with_verdict(USIM_V_VIOLATION, "mem.double-free", msg);
   }
+  if (fd_on_arena_free) fd_on_arena_free(p, b->size);
   b->state = SH_FREED;
   shadow_set(b->off, b->size, SH_FREED);
   memset(p, 0xDD, b->size);
